@@ -361,7 +361,7 @@ static void run_cases(Reporter& R, const Args& A, const RowInfo& ri, Acc& acc, C
     offs[i] = o;
     o += sizes[i];
   }
-  const long long cases = A.n("cases", A.thorough() ? 2000000 : 1600);
+  const long long cases = A.n("cases", A.thorough() ? 1500000 : 1600);
   std::vector<T> x(static_cast<size_t>(ri.nin));
   for (long long k = 0; k < cases; ++k) {
     if (!A.mine(static_cast<uint64_t>(k) + static_cast<uint64_t>(ri.index))) continue;
